@@ -11,6 +11,7 @@ mod s_determ;
 mod s_engine;
 mod s_expr;
 mod s_limits;
+mod s_print;
 mod s_snapshot;
 mod s_symbols;
 mod s_versions;
@@ -38,6 +39,8 @@ fn main() {
         "versions" => s_versions::run(&opts),
         "symbols" => s_symbols::run(&opts),
         "snapshot" => s_snapshot::run(&opts),
+        "print" => s_print::run(&opts),
+        "parsetext" => s_print::parsetext(),
         other => {
             eprintln!("unknown stream {other}");
             std::process::exit(2);
